@@ -16,9 +16,14 @@ Inductive refers : list nat -> sexpr -> nat -> Prop :=
 | r_call_f b f args y : refers b f y -> refers b (XCall f args) y
 | r_call_arg b f args a y : In a args -> refers b a y -> refers b (XCall f args) y
 | r_arr b items a y : In a items -> refers b a y -> refers b (XArr items) y
-| r_fun b ps ls body a y : In a body -> refers (ps ++ ls ++ b) a y -> refers b (XFun ps ls body) y
+(* a default value sees the parameters but not the body's vars *)
+| r_fun_default b ps ds ls body a y : In a ds -> refers (ps ++ b) a y -> refers b (XFun ps ds ls body) y
+| r_fun_body b ps ds ls body a y : In a body -> refers (ps ++ ls ++ b) a y -> refers b (XFun ps ds ls body) y
 | r_class_ext b ext ms y : refers b ext y -> refers b (XClass (Some ext) ms) y
-| r_class_m b ext ms a y : In a ms -> refers b a y -> refers b (XClass ext ms) y.
+| r_class_m b ext ms a y : In a ms -> refers b a y -> refers b (XClass ext ms) y
+| r_field_key b st k init y : refers b k y -> refers b (XField st (Some k) init) y
+| r_field_init b st key v y : refers b v y -> refers b (XField st key (Some v)) y
+| r_static b ls body a y : In a body -> refers (ls ++ b) a y -> refers b (XStaticBlock ls body) y.
 
 Section SInd.
   Variable P : sexpr -> Prop.
@@ -28,12 +33,19 @@ Section SInd.
   Hypothesis HAs : forall x v, P v -> P (XAssign x v).
   Hypothesis HCall : forall f args, P f -> Forall P args -> P (XCall f args).
   Hypothesis HArr : forall items, Forall P items -> P (XArr items).
-  Hypothesis HFun : forall ps ls body, Forall P body -> P (XFun ps ls body).
+  Hypothesis HFun : forall ps ds ls body, Forall P ds -> Forall P body -> P (XFun ps ds ls body).
   Hypothesis HClass : forall ext ms, (forall x, ext = Some x -> P x) -> Forall P ms -> P (XClass ext ms).
+  Hypothesis HField : forall st key init, (forall x, key = Some x -> P x) -> (forall x, init = Some x -> P x) -> P (XField st key init).
+  Hypothesis HStatic : forall ls body, Forall P body -> P (XStaticBlock ls body).
 
   Fixpoint sexpr_ind' (e : sexpr) : P e :=
     let all := fix go (l : list sexpr) : Forall P l :=
       match l with [] => Forall_nil P | x :: r => Forall_cons x (sexpr_ind' x) (go r) end in
+    let opt := fun (o : option sexpr) =>
+      match o as o' return forall x, o' = Some x -> P x with
+      | Some x0 => fun x E => match E in _ = o'' return match o'' with Some y => P y | None => True end with eq_refl => sexpr_ind' x0 end
+      | None => fun x E => match E in _ = o'' return match o'' with Some y => P y | None => True end with eq_refl => I end
+      end in
     match e with
     | XLit => HLit
     | XId x => HId x
@@ -41,13 +53,10 @@ Section SInd.
     | XAssign x v => HAs x v (sexpr_ind' v)
     | XCall f args => HCall f args (sexpr_ind' f) (all args)
     | XArr items => HArr items (all items)
-    | XFun ps ls body => HFun ps ls body (all body)
-    | XClass ext ms =>
-      HClass ext ms
-        (match ext as o return forall x, o = Some x -> P x with
-         | Some x0 => fun x E => match E in _ = o return match o with Some y => P y | None => True end with eq_refl => sexpr_ind' x0 end
-         | None => fun x E => match E in _ = o return match o with Some y => P y | None => True end with eq_refl => I end
-         end) (all ms)
+    | XFun ps ds ls body => HFun ps ds ls body (all ds) (all body)
+    | XClass ext ms => HClass ext ms (opt ext) (all ms)
+    | XField st key init => HField st key init (opt key) (opt init)
+    | XStaticBlock ls body => HStatic ls body (all body)
     end.
 End SInd.
 
@@ -90,26 +99,43 @@ Proof.
   - rewrite (flat_map_refers items H). split.
     + intros [a [Ia R]]. eapply r_arr; eauto.
     + intro R. inversion R; subst. eauto.
-  - rewrite (flat_map_refers body H). split.
-    + intros [a [Ia R]]. eapply r_fun; eauto.
-    + intro R. inversion R; subst. eauto.
+  - rewrite in_app_iff, (flat_map_refers ds H), (flat_map_refers body H0). split.
+    + intros [[a [Ia R]]|[a [Ia R]]]; [eapply r_fun_default; eauto | eapply r_fun_body; eauto].
+    + intro R. inversion R; subst; [left; eauto | right; eauto].
   - rewrite in_app_iff, (flat_map_refers ms H0). split.
     + intros [R|[a [Ia R]]]; [|eapply r_class_m; eauto].
       destruct ext as [x|]; [|destruct R]. apply r_class_ext. apply (H x eq_refl). exact R.
     + intro R. inversion R; subst; [left; apply (H ext0 eq_refl); assumption | right; eauto].
+  - rewrite in_app_iff. split.
+    + intros [R|R].
+      * destruct key as [k|]; [|destruct R]. apply r_field_key. apply (H k eq_refl). exact R.
+      * destruct init as [v|]; [|destruct R]. apply r_field_init. apply (H0 v eq_refl). exact R.
+    + intro R. inversion R; subst; [left; apply (H k eq_refl); assumption | right; apply (H0 v eq_refl); assumption].
+  - rewrite (flat_map_refers body H). split.
+    + intros [a [Ia R]]. eapply r_static; eauto.
+    + intro R. inversion R; subst. eauto.
 Qed.
 
 (* ---- statements ---- *)
+Definition catch_binders (c : option nat) : list nat := match c with Some x => [x] | None => [] end.
+
 Inductive stmt_refers : sstmt -> nat -> Prop :=
 | sr_local_init decls p e y : In (p, Some e) decls -> refers [] e y -> stmt_refers (SSLocal decls) y
 | sr_local_default decls items o x d y :
     In (PArr items, o) decls -> In (x, Some d) items -> refers [] d y -> stmt_refers (SSLocal decls) y
-| sr_function name ps ls body a y : In a body -> refers (ps ++ ls) a y -> stmt_refers (SSFunction name ps ls body) y
+| sr_local_key decls props o k x od y :
+    In (PObj props, o) decls -> In (Some k, x, od) props -> refers [] k y -> stmt_refers (SSLocal decls) y
+| sr_local_pdefault decls props o ok x d y :
+    In (PObj props, o) decls -> In (ok, x, Some d) props -> refers [] d y -> stmt_refers (SSLocal decls) y
+| sr_function name ps ds ls body y : refers [] (XFun ps ds ls body) y -> stmt_refers (SSFunction name ps ds ls body) y
 | sr_class name ext ms y : refers [] (XClass ext ms) y -> stmt_refers (SSClass name ext ms) y
 | sr_expr e y : refers [] e y -> stmt_refers (SSExpr e) y
 | sr_if e y : refers [] e y -> stmt_refers (SSIf e) y
-| sr_try e y : refers [] e y -> stmt_refers (SSTry e) y
-| sr_block x e y : refers [] e y -> stmt_refers (SSBlockVar x e) y.
+| sr_try e c y : refers [] e y -> stmt_refers (SSTry e c) y
+| sr_catch e c handler a y : In a handler -> refers (catch_binders c) a y -> stmt_refers (SSTry e (Some (c, handler))) y
+| sr_block x e y : refers [] e y -> stmt_refers (SSBlockVar x e) y
+| sr_outer k outer bs inner hs a y : In a outer -> refers [] a y -> stmt_refers (SSCompound k outer bs inner hs) y
+| sr_inner k outer bs inner hs a y : In a inner -> refers bs a y -> stmt_refers (SSCompound k outer bs inner hs) y.
 
 Lemma zs_inj x y : zs x = zs y -> x = y.
 Proof. unfold zs. intro H. inversion H. reflexivity. Qed.
@@ -119,35 +145,60 @@ Proof.
   rewrite in_map_iff. split; [intros [y [E H]]; apply zs_inj in E; subst; exact H | intro H; exists x; auto].
 Qed.
 
+Lemma fv_opt_refers o y : In y (fv_opt o) <-> exists e, o = Some e /\ refers [] e y.
+Proof.
+  destruct o as [e|]; simpl.
+  - rewrite fv_refers. split; [intro R; exists e; auto | intros [e' [E R]]; inversion E; subst; exact R].
+  - split; [intros [] | intros [e [E _]]; discriminate].
+Qed.
+
+Lemma flat_map_fv_refers b l y : In y (flat_map (fv b) l) <-> exists a, In a l /\ refers b a y.
+Proof.
+  rewrite in_flat_map. split; intros [a [Ia R]]; exists a; split; auto; apply fv_refers; exact R.
+Qed.
+
 Lemma analyze_uses_spec D st y :
   In (zs y) (flat_map td_uses (stmt_decls (analyze D st))) <-> stmt_refers st y.
 Proof.
-  destruct st as [decls|name ps ls body|name ext ms|e|e|e|x e|names|]; simpl; rewrite ?app_nil_r.
+  destruct st as [decls|name ps ds ls body|name ext ms|e|e|e c|x e|k outer bs inner hs|names|]; simpl; rewrite ?app_nil_r.
   - rewrite in_flat_map. split.
     + intros [d [Hd Hy]]. apply in_map_iff in Hd as [[p o] [<- Hin]]. simpl in Hy.
       apply In_map_zs in Hy. apply in_app_or in Hy as [Hy|Hy].
-      * destruct p as [x|items]; [destruct Hy|]. simpl in Hy. apply in_flat_map in Hy as [[x od] [Hit Hy]].
-        simpl in Hy. destruct od as [d|]; [|destruct Hy]. simpl in Hy. apply fv_refers in Hy.
-        eapply sr_local_default; eauto.
-      * destruct o as [e|]; [|destruct Hy]. simpl in Hy. apply fv_refers in Hy. eapply sr_local_init; eauto.
+      * destruct p as [x|items|props]; [destruct Hy| |]; simpl in Hy.
+        -- apply in_flat_map in Hy as [[x od] [Hit Hy]]. simpl in Hy.
+           apply fv_opt_refers in Hy as [d [-> R]]. eapply sr_local_default; eauto.
+        -- apply in_flat_map in Hy as [[[ok x] od] [Hit Hy]]. simpl in Hy. apply in_app_or in Hy as [Hy|Hy].
+           ++ apply fv_opt_refers in Hy as [k [-> R]]. eapply sr_local_key; eauto.
+           ++ apply fv_opt_refers in Hy as [d [-> R]]. eapply sr_local_pdefault; eauto.
+      * apply fv_opt_refers in Hy as [e [-> R]]. eapply sr_local_init; eauto.
     + intro R. inversion R; subst.
-      * exists (decl_of D (pat_names p) (pat_uses p ++ fv_opt (Some e))
-                  (SLocal LConst [DDecl (pat_node p) (option_map to_node (Some e))])).
-        split; [apply in_map_iff; exists (p, Some e); auto|]. simpl. apply In_map_zs. apply in_or_app. right.
-        apply fv_refers. assumption.
-      * exists (decl_of D (pat_names (PArr items)) (pat_uses (PArr items) ++ fv_opt o)
-                  (SLocal LConst [DDecl (pat_node (PArr items)) (option_map to_node o)])).
-        split; [apply in_map_iff; exists (PArr items, o); auto|]. simpl. apply In_map_zs. apply in_or_app. left.
+      * eexists. split; [apply in_map_iff; exists (p, Some e); split; [reflexivity | eassumption]|].
+        simpl. apply In_map_zs. apply in_or_app. right. apply fv_refers. assumption.
+      * eexists. split; [apply in_map_iff; exists (PArr items, o); split; [reflexivity | eassumption]|].
+        simpl. apply In_map_zs. apply in_or_app. left.
         apply in_flat_map. exists (x, Some d). split; [assumption|]. simpl. apply fv_refers. assumption.
-  - rewrite In_map_zs, in_flat_map. split.
-    + intros [a [Ia Hy]]. apply fv_refers in Hy. eapply sr_function; eauto.
-    + intro R. inversion R; subst. exists a. split; [assumption | apply fv_refers; assumption].
+      * eexists. split; [apply in_map_iff; exists (PObj props, o); split; [reflexivity | eassumption]|].
+        simpl. apply In_map_zs. apply in_or_app. left.
+        apply in_flat_map. exists (Some k, x, od). split; [assumption|]. simpl. apply in_or_app. left. apply fv_refers. assumption.
+      * eexists. split; [apply in_map_iff; exists (PObj props, o); split; [reflexivity | eassumption]|].
+        simpl. apply In_map_zs. apply in_or_app. left.
+        apply in_flat_map. exists (ok, x, Some d). split; [assumption|]. simpl. apply in_or_app. right. apply fv_refers. assumption.
+  - rewrite In_map_zs.
+    assert (E : flat_map (fv ps) ds ++ flat_map (fv (ps ++ ls)) body = fv [] (XFun ps ds ls body))
+      by (simpl; rewrite !app_nil_r; reflexivity).
+    rewrite E, fv_refers. split; [intro R; constructor; exact R | intro R; inversion R; assumption].
   - rewrite In_map_zs. change ((match ext with Some x => fv [] x | None => [] end) ++ flat_map (fv []) ms) with (fv [] (XClass ext ms)).
     rewrite fv_refers. split; [intro R; constructor; exact R | intro R; inversion R; assumption].
   - rewrite In_map_zs, fv_refers. split; [intro R; constructor; exact R | intro R; inversion R; assumption].
   - rewrite In_map_zs, fv_refers. split; [intro R; constructor; exact R | intro R; inversion R; assumption].
+  - rewrite In_map_zs, in_app_iff, fv_refers. split.
+    + intros [R|R]; [apply sr_try; exact R|].
+      destruct c as [[c handler]|]; [|destruct R]. apply flat_map_fv_refers in R as [a [Ia R]]. eapply sr_catch; eauto.
+    + intro R. inversion R; subst; [left; assumption|]. right. apply flat_map_fv_refers. exists a. split; assumption.
   - rewrite In_map_zs, fv_refers. split; [intro R; constructor; exact R | intro R; inversion R; assumption].
-  - rewrite In_map_zs, fv_refers. split; [intro R; constructor; exact R | intro R; inversion R; assumption].
+  - rewrite In_map_zs, in_app_iff, !flat_map_fv_refers. split.
+    + intros [[a [Ia R]]|[a [Ia R]]]; [eapply sr_outer; eauto | eapply sr_inner; eauto].
+    + intro R. inversion R; subst; [left; eauto | right; eauto].
   - split; [intros [] | intro R; inversion R].
   - split; [intros [] | intro R; inversion R].
 Qed.
@@ -155,7 +206,7 @@ Qed.
 Lemma analyze_declares_spec D st x :
   In (zs x) (flat_map td_declares (stmt_decls (analyze D st))) <-> In x (stmt_names st).
 Proof.
-  destruct st as [decls|name ps ls body|name ext ms|e|e|e|x0 e|names|]; simpl; rewrite ?app_nil_r; try rewrite In_map_zs; try tauto.
+  destruct st as [decls|name ps ds ls body|name ext ms|e|e|e c|x0 e|k outer bs inner hs|names|]; simpl; rewrite ?app_nil_r; try rewrite In_map_zs; try tauto.
   - rewrite !in_flat_map. split.
     + intros [d [Hd Hx]]. apply in_map_iff in Hd as [po [<- Hin]]. simpl in Hx. apply In_map_zs in Hx. exists po. auto.
     + intros [po [Hin Hx]]. eexists. split; [apply in_map_iff; exists po; split; [reflexivity | exact Hin]|].
